@@ -1,4 +1,6 @@
 import SJ.Proofs.Facts
+import SJ.Proofs.SerReuse
+import SJ.Proofs.SerdeRT
 import SJ.Proofs.Reuse
 /-
 C15 — Reusing a ParsedJson or Serializer never leaks earlier state.
@@ -23,16 +25,16 @@ theorem C15_parse_assignments : parseAssignments.length = 15 ∧ parseAssignment
     any tape, string buffer, scope stack, index buffer cursor, slot counter, flags) by resetting exactly the fields the
     *source* assigns on entry (`Generated.parseAssignments`). For any two histories the entry states coincide (up to the
     channel contents, shown empty below, and the write-only `isvalid`). -/
-theorem C15_entry_state_history_independent (c c' : Carry) (msg : Bytes) (nd copy : Bool) :
+theorem C15_entry_state_history_independent (c c' : Reuse.Carry) (msg : Bytes) (nd copy : Bool) :
     { enter c msg nd copy with queue := [], isvalid := false } = { enter c' msg nd copy with queue := [], isvalid := false } :=
   enter_indep c c' msg nd copy
 
 /-- … and stage 2 starts from the same machine state as on a fresh object, whatever the history: `unifiedMachine`
     appends to `Tape`, `Strings.B`, `containingScopeOffset` as it finds them, and it finds them empty. -/
-theorem C15_machine_start (c : Carry) (msg : Bytes) (nd copy : Bool) : initFrom (enter c msg nd copy) = M.init :=
+theorem C15_machine_start (c : Reuse.Carry) (msg : Bytes) (nd copy : Bool) : initFrom (enter c msg nd copy) = M.init :=
   initFrom_enter c msg nd copy
 
-theorem C15_entry_fields (c : Carry) (msg : Bytes) (nd copy : Bool) :
+theorem C15_entry_fields (c : Reuse.Carry) (msg : Bytes) (nd copy : Bool) :
     (enter c msg nd copy).message = trimSpace msg ∧ (enter c msg nd copy).nd = nd ∧ (enter c msg nd copy).copyStrings = copy ∧
     (enter c msg nd copy).ixIndex = 0 ∧ (enter c msg nd copy).ixLength = 0 ∧ (enter c msg nd copy).bufOffset = 2^64 - 1 :=
   enter_fields c msg nd copy
@@ -72,7 +74,7 @@ theorem C15_entry_sources :
   rw [source_initialize, source_parseMessage, source_newInternal]; decide
 
 /-- a dirty object: tape, strings, open scopes, half-read index buffer, flags of an ND no-copy call -/
-def dirty : Carry :=
+def dirty : Reuse.Carry :=
   { tape := #[1, 2, 3]
     strings := #[65]
     scope := [5, 9]
@@ -88,5 +90,43 @@ example : (enter dirty #[91, 93] false true).tape = #[] ∧ (enter dirty #[91, 9
     (enter dirty #[91, 93] false true).copyStrings = true := by
   obtain ⟨h1, _, _, _, h5, _, _, _, h9⟩ := SJ.Reuse.assigned_all
   simp [enter, h1, h5, h9]
+
+open SJ.SerReuse in
+/-- **A reused Serializer starts every `Serialize` from the same state.** The entry code of `Serialize` (regenerated:
+    the statements in front of the tape loop and, per field, whether it is zeroed, emptied, overwritten, re-sliced or
+    only handed to `encBlock`) zeroes the de-duplication table, empties the string buffer, the compressed-message
+    buffer and the value buffer and restarts the tag offset: whatever two histories left behind, the tape loop starts
+    from the same state — the state the model's `serialize` starts from, so `C11_roundtrip` and the other theorems about
+    `serialize` speak about reused Serializers. The compression mode survives on purpose (it is configuration). -/
+theorem C15_serializer_entry_history_independent (c c' : SerReuse.Carry) :
+    loopStart (SerReuse.enter c) = loopStart (SerReuse.enter c') ∧ loopStart (SerReuse.enter c) = ({} : SerState) ∧
+    (SerReuse.enter c).sMsg = #[] ∧ (SerReuse.enter c).mode = c.mode :=
+  ⟨loopStart_indep c c', loopStart_fresh c, (SerReuse.enter_fields c).1, (SerReuse.enter_fields c).2⟩
+
+/-- every field of `Serializer` is treated by the entry code or is `maxBlockSize` (read by `Deserialize` only); a field
+    added without a reset breaks this theorem -/
+theorem C15_serializer_fields_covered :
+    fieldsSerializer.all (fun f => (serializerEntryResets.map (·.1)).contains f || f == "maxBlockSize") = true :=
+  SerReuse.fields_covered
+
+/-- the entry code, pinned -/
+theorem C15_serializer_entry_source : serializerEntry.length = 19 ∧
+    serializerEntry.getD 1 "" = "for i := range s.stringsTable[:] { s.stringsTable[i] = 0 }" ∧
+    serializerEntry.getD 2 "" = "if len(s.stringBuf) > 0 { s.stringBuf = s.stringBuf[:0] }" ∧
+    serializerEntry.getD 13 "" = "s.valuesBuf = s.valuesBuf[:0]" := by
+  rw [SerReuse.entry_source]; decide
+
+open SJ.Layout in
+/-- **A reused destination of `Deserialize` cannot influence the result**: for every tape denoting `d` and ANY two
+    previous contents of the destination tape, both reconstructions succeed and both denote `d`. -/
+theorem C15_deserialize_destination_independent (pj : PJ) (d : List JVal) (hash : Bytes → Nat) (hwf : WF pj d)
+    (hsz : pj.tape.size < 2^56) (hb : pj.tape.size * max pj.msg.size pj.strings.size < 2^55) :
+    ∃ sec, serialize pj hash = .ok sec ∧ ∀ init init' : Array UInt64, init.size = sec.tapeSize → init'.size = sec.tapeSize →
+      ∃ p p', deserializeSections sec init = .ok p ∧ deserializeSections sec init' = .ok p' ∧ WF p d ∧ WF p' d := by
+  obtain ⟨sec, hs, _, h⟩ := SerdeRT.roundtrip_of_bound pj d hash hwf hsz hb
+  refine ⟨sec, hs, fun init init' hi hi' => ?_⟩
+  obtain ⟨p, hp, hw, _⟩ := h init hi
+  obtain ⟨p', hp', hw', _⟩ := h init' hi'
+  exact ⟨p, p', hp, hp', hw, hw'⟩
 
 end SJ.Properties.C15
